@@ -55,14 +55,22 @@ func parseV2(data string) (*V2, error) {
 		return nil, err
 	}
 
-	// Uncompress the bytes
+	// Uncompress the bytes, unless they announce more than a license can be
+	if size, err := snappy.DecodedLen(raw); err != nil || size > maxLicenseSize {
+		return nil, errInvalidLicense
+	}
+
 	raw, err = snappy.Decode(nil, raw)
 	if err != nil {
 		return nil, err
 	}
 
-	// Unmarshal the license
+	// Unmarshal the license, unless its key or salt announce more bytes than there are
 	var license V2
+	if !fieldsFit(raw) {
+		return nil, errInvalidLicense
+	}
+
 	err = binary.Unmarshal(raw, &license)
 	return &license, err
 }
